@@ -15,7 +15,7 @@ pub const DEF: PropDef = PropDef {
     id: "C17",
     jobs,
     required,
-    rule: "scenario P (pre-sized): for one vector-backed structural entry (owned slices, strings, slices of regions 1-3 deep, options, results, tuples, Vec as region) and one way of pre-sizing - reserve_items(items), reserve_regions(sources), merge_regions(sources), FlatStack::merge_capacity(stacks), from empty and from populated regions - snapshot every capacity reported by heap_size, then push exactly the announced items by reference while a counting global allocator (thread-local counters) watches: every capacity pair must stay constant and, for plain-data payloads, the allocator must not be called at all (alloc + realloc == 0). Scenario L (no pre-sizing): push n = 2^6 .. 2^14 plain-data items by reference into every non-coded entry; allocator calls must stay below S*(log2(n)+12), S being the number of storages heap_size reports, and doubling n may add at most 3*S+4 calls. Batches: empty items, many small, few large, skewed Ok/Err and Some/None mixes, nested slices. Thorough tier: one P and one L scenario re-run under valgrind memcheck, whose own allocation count is recorded next to the counter's. Non-trivial = at least 2 items pushed in the measured window; distinct = distinct hash of (entry, scenario, batch).",
+    rule: "scenario P (pre-sized): for one vector-backed structural entry (owned slices, strings, slices of regions 1-3 deep, options, results, tuples, Vec as region) and one way of pre-sizing - reserve_items(items), reserve_regions(sources), merge_regions(sources), FlatStack::merge_capacity(stacks), from empty and from populated regions - snapshot every capacity reported by heap_size, then push exactly the announced items (by reference, or by value with the clones made beforehand) while a counting global allocator (thread-local counters) watches: every capacity pair must stay constant and, for plain-data payloads, the allocator must not be called at all (alloc + realloc == 0). Scenario L (no pre-sizing): push n = 2^6 .. 2^14 plain-data items by reference into every non-coded entry; allocator calls must stay below S*(log2(n)+12), S being the number of storages heap_size reports, and doubling n may add at most 3*S+4 calls. Batches: empty items, many small, few large, skewed Ok/Err and Some/None mixes, nested slices. Thorough tier: one P and one L scenario re-run under valgrind memcheck, whose own allocation count is recorded next to the counter's. Non-trivial = at least 2 items pushed in the measured window; distinct = distinct hash of (entry, scenario, batch).",
     assumptions: &[
         "allocations made by the harness itself are kept out of the measured window (no logging or cloning between the counter snapshots)",
         "entries whose elements own heap memory themselves (owned<String>, vec<String>) are not 'plain data': capacities are checked, allocator silence is not",
@@ -57,6 +57,7 @@ fn required(plan: &Plan) -> Vec<String> {
         v.push(format!("presized:reserve_regions:{}", d.label));
         v.push(format!("presized:merge_regions:{}", d.label));
         v.push(format!("presized:merge_capacity:{}", d.label));
+        v.push(format!("presized:by-value:{}", d.label));
     }
     for d in plan.reg.iter().filter(|d| !d.flags.coded && plain(d) && d.flags.heap) {
         v.push(format!("growth:{}", d.label));
@@ -95,6 +96,22 @@ fn measured_push<E: Entry>(r: &mut E::R, items: &[E::V]) -> Result<(alloc::Snap,
         let snap = alloc::snap();
         for v in items {
             let _ = E::push(r, v, 0, &mut aux);
+        }
+        alloc::since(snap)
+    });
+    let after = heap_pairs(r);
+    res.map(|d| (d, before, after))
+}
+
+/// Same, but every item is handed over by value (`Push<Owned>`); the clones are made before
+/// the window opens, so that the only allocator calls inside it are the crate's.
+fn measured_push_owned<E: Entry>(r: &mut E::R, items: &[E::V]) -> Result<(alloc::Snap, Vec<(usize, usize)>, Vec<(usize, usize)>), panics::Panic> {
+    let before = heap_pairs(r);
+    let owned: Vec<E::V> = items.to_vec();
+    let res = panics::catch(|| {
+        let snap = alloc::snap();
+        for v in owned {
+            let _ = E::push_owned(r, v);
         }
         alloc::since(snap)
     });
@@ -184,8 +201,13 @@ fn presized<E: Entry>(ctx: &mut Ctx) {
         }
         _ => unreachable!(),
     }
-    ctx.log(format!("push the {n} announced items by reference (measured window)"));
-    match measured_push::<E>(&mut target, &items) {
+    let by_value = E::can_push_owned() && (h / 2) % 2 == 1;
+    ctx.log(format!("push the {n} announced items {} (measured window)", if by_value { "by value" } else { "by reference" }));
+    if by_value {
+        ctx.cover(&format!("presized:by-value:{}", E::label()));
+    }
+    let measured = if by_value { measured_push_owned::<E>(&mut target, &items) } else { measured_push::<E>(&mut target, &items) };
+    match measured {
         Ok((d, before, after)) => {
             ctx.count("presized_pushes", n as u64);
             ctx.count("allocator_calls_in_presized_windows", d.calls());
